@@ -213,7 +213,7 @@ def check_c03(run, t0=0.0):
     if run['error'] is not None:
         et, em = run['error']
         if et == 'StepLimit':
-            bad('C03/nontermination/' + tag, em)
+            bad('C03/nontermination/%s/%s' % (tag, c['it']), em)
         else:
             bad('C03/exception/%s/%s/%s' % (c['system'], et, em.split(' at ')[-1]), '%s: %s' % (et, em))
         return viol
